@@ -277,6 +277,7 @@ type Run struct {
 	pureDepth     int
 	curCon        *Contract
 	closable      map[string]bool
+	kindFilter    map[string]bool // sweeps: obligation kinds to generate (nil: all)
 	sendable      map[string]bool
 	ctxInner      map[string]Val
 	mapZero       map[string]string // Mv array name -> zero term of the element type
